@@ -585,6 +585,26 @@ def ev_tr_s3():
     return _translate("c14_s3", S3_SRC, "s3", DEC3)
 
 
+_RESCRIPT = {}
+
+
+def ev_tr_rescript():
+    """The SAME Python function object (created once per process) is handed to script() again at every call: scripting
+    must not leave anything behind on the function, its source or its AST (seeded C11f cached and mutated the AST)."""
+    if "f" not in _RESCRIPT:
+        src = _HDR18 + (
+            "def rs(x: FLOAT[4, 5], n: INT64) -> FLOAT[...]:\n"
+            "    a = x[2, 1:3]\n"
+            "    b = x[::-1, 3]\n"
+            "    acc = a[0] + b[1]\n"
+            "    for i in range(n):\n"
+            "        acc = acc + x[1, 0] * 2.0\n"
+            "    return acc\n")
+        _RESCRIPT["f"] = getattr(_fresh_module("c14_rescript", src), "rs")
+    fn = DEC(_RESCRIPT["f"])
+    return {"model": _ser_plain(fn.to_model_proto()), "function": _ser_plain(fn.to_function_proto())}
+
+
 def ev_tr_x11():
     return _translate("c14_sx11", SX11_SRC, "sx11", DEC11)
 
@@ -841,7 +861,7 @@ def ev_use_g():
 
 
 EVENTS = {
-    "tr_s1": ev_tr_s1, "tr_s2": ev_tr_s2, "tr_s3": ev_tr_s3, "tr_x11": ev_tr_x11, "tr_x18": ev_tr_x18,
+    "tr_s1": ev_tr_s1, "tr_s2": ev_tr_s2, "tr_s3": ev_tr_s3, "tr_x11": ev_tr_x11, "tr_x18": ev_tr_x18, "tr_rescript": ev_tr_rescript,
     "opt_reshape2": ev_opt_reshape2, "opt_reshape_az": ev_opt_reshape_az, "opt_fold_o11": ev_opt_fold_o11, "opt_fold_o18": ev_opt_fold_o18, "opt_padconv": ev_opt_padconv, "opt_matreshape": ev_opt_matreshape,
     "opt_nearmiss": ev_opt_nearmiss, "opt_mixed": ev_opt_mixed,
     "rw_checkraises": ev_rw_checkraises, "rw_patternraises": ev_rw_patternraises, "rw_alt": ev_rw_alt,
